@@ -102,7 +102,7 @@ Proof.
            ++ intros [[[H|H]|H]|H]; right; lia.
            ++ intros [H|[H1 H2]]; [lia|].
               destruct (Z_lt_le_dec (tr_start b) (tr_start a)).
-              ** right. left. destruct (Z_lt_le_dec (tr_start a) (tr_end b)); lia.
+              ** left. right. lia.
               ** left. left. right. lia.
 Qed.
 
@@ -129,18 +129,22 @@ Proof.
     rewrite Hsw. rewrite Z.eqb_refl. reflexivity.
 Qed.
 
-(* BoundBy: the result lies inside the bound, for an ordered in-range bound *)
+Ltac ltb_cases :=
+  repeat match goal with
+  | |- context [if ?a <? ?b then _ else _] =>
+      lazymatch a with context [if _ then _ else _] => fail | _ => idtac end;
+      lazymatch b with context [if _ then _ else _] => fail | _ => idtac end;
+      destruct (Z.ltb_spec a b); simpl
+  end.
+
+(* BoundBy: the result lies inside the bound, for an ordered bound *)
 Lemma bound_by_within tr bound :
   tr_start bound <= tr_end bound ->
   let r := bound_by tr bound in
   tr_start bound <= tr_start r <= tr_end bound /\ tr_start bound <= tr_end r <= tr_end bound.
 Proof.
   intros Hb. unfold bound_by. destruct tr as [s e], bound as [bs be]; simpl in *.
-  repeat match goal with |- context [if ?c then _ else _] => destruct c eqn:? ; simpl in * end;
-  repeat match goal with
-         | H : (_ <? _) = true |- _ => apply Z.ltb_lt in H
-         | H : (_ <? _) = false |- _ => apply Z.ltb_ge in H
-         end; lia.
+  ltb_cases; lia.
 Qed.
 
 (* BoundBy of overlapping ordered ranges is their intersection *)
@@ -150,9 +154,5 @@ Lemma bound_by_intersection tr bound :
   bound_by tr bound = mkTR (Z.max (tr_start tr) (tr_start bound)) (Z.min (tr_end tr) (tr_end bound)).
 Proof.
   intros. unfold bound_by. destruct tr as [s e], bound as [bs be]; simpl in *.
-  repeat match goal with |- context [if ?c then _ else _] => destruct c eqn:? ; simpl in * end;
-  repeat match goal with
-         | H : (_ <? _) = true |- _ => apply Z.ltb_lt in H
-         | H : (_ <? _) = false |- _ => apply Z.ltb_ge in H
-         end; f_equal; lia.
+  ltb_cases; f_equal; lia.
 Qed.
